@@ -60,7 +60,7 @@ var Accesses = []Access{
 
 // RacyCase is one (share, goroutine access, main access) scenario.
 type RacyCase struct {
-	N                  int
+	N                 int
 	Share, GAcc, MAcc int
 }
 
